@@ -27,7 +27,11 @@ RULE = ('a case is one schedule for one adapter: (adapter in {Axi2Reg, Reg2Axi},
         'evaluates all clauses of the adapter (one evaluation per cycle). Non-trivial = the schedule contains back-pressure while '
         'VALID is high (Reg2Axi: tvalid&!tready; Axi2Reg: peer VALID while the adapter is not ready), a load while pending '
         '(Reg2Axi: load_outs&active while tvalid; Axi2Reg: a beat accepted while a value is already loaded) and a reset or done '
-        'while active; distinct by content hash of the schedule')
+        'while active; distinct by content hash of the schedule. Long-stall class: per adapter one schedule for every k in 8,10..20 (thorough: '
+        'every k in 8..21, three variants) = random prefix, the adapter brought to active with a beat pending (Reg2Axi) / active with or '
+        'without a loaded word (Axi2Reg), 2**k+16 cycles with all controls and the peer READY/VALID low run in clk(n) chunks of doubling '
+        'length (n <= 2**16) with VALID, data, sent, active / active, loaded, q, READY judged after every chunk (one evaluation per stall cycle), '
+        'then the beat accepted and a random suffix under the per-cycle clauses')
 SHARDS = {'quick': 1, 'thorough': 16}
 TIMEOUT = {'quick': 600, 'thorough': 3000}
 MIN_NONTRIVIAL = {'quick': 1000, 'thorough': 40000}
@@ -36,6 +40,10 @@ SCHEDULES = {'quick': 500, 'thorough': 14000}      # per (adapter, width slot); 
 # register widths: the design's {8,32,64}, {12,33} for the ceil in the KEEP mask, and registers wider than 64 bits (with streams of
 # 128/256/512 bits: register wider than, equal to and narrower than the stream word)
 WIDTHS = [8, 32, 64, 65, 8, 32, 64, 128, 12, 33, 96, 512, 8, 64, 200, 256]
+# long uninterrupted stalls: a geometric family of 2**k + 16 cycles without any handshake (Reg2Axi: VALID pending, READY low;
+# Axi2Reg: active, peer VALID low) -- past the wrap-around / top bit of any k-bit cycle counter inside the adapter
+STALL_K = {'quick': (8, 10, 12, 14, 16, 18, 20), 'thorough': tuple(range(8, 22))}
+STALL_VARIANTS = {'quick': 1, 'thorough': 3}
 
 
 # --------------------------------------------------------------------------- schedules
@@ -101,6 +109,49 @@ def gen_schedule(rnd, dut, W, ncyc):
             chunks.append(c)
             left -= c
     return dict(dut=dut, W=W, dw=dw, cycles=cyc[:ncyc], hist=hist, drive=drive, chunks=chunks)
+
+
+def gen_stall(rnd, dut, W, k, variant):
+    """Long-stall class: a short random prefix, forced cycles that leave the adapter active with a beat pending (Reg2Axi) /
+    active with or without a loaded word (Axi2Reg), then 2**k + 16 cycles with every control input and the peer's READY/VALID low,
+    then a suffix that starts with the peer's READY/VALID high (the pending beat is finally accepted) and goes on randomly.
+    Prefix and suffix run cycle by cycle under the full monitor; the stall runs in clk(n) chunks of doubling length (n <= 2**16),
+    with the visible state judged after every chunk -- with constant inputs the statement allows no change at all."""
+    plan = gen_schedule(rnd, dut, W, 24 + 40)
+    width = plan['dw'] if dut == 'axi2reg' else W
+    d = [rnd.getrandbits(width) | 1 for _ in range(3)]
+    pre, suf = plan['cycles'][:24], plan['cycles'][24:]
+    if dut == 'reg2axi':
+        forced = [[0, 1, 0, 0, 0, d[0]], [1, 0, 0, 0, 0, d[0]], [0, 0, 0, 1, 0, d[1]]]
+    else:
+        forced = [[0, 1, 0, 0, 0, d[0]], [1, 0, 0, 0, 0, d[0]]] + ([[0, 0, 0, 0, 1, d[1]]] if (k // 2 + variant) % 2 else [])
+    first = [0, 0, 0, 0, 1, d[2]]
+    plan.update(cycles=pre + forced + [first] + suf, stall_at=len(pre) + len(forced), stall=2 ** k + 16, stall_k=k, drive='bench', chunks=[],
+                hist=None if variant % 2 == 0 else plan['hist'])
+    return plan
+
+
+def _stall_chunks(n):
+    c = 1
+    while n > 0:
+        m = min(n, c)
+        yield m
+        n -= m
+        c = min(2 * c, 2 ** 16)
+
+
+def drive_stall(mon):
+    mon.sim.addListener(_Passive(mon, every=4099))
+    plan, ev = mon.plan, mon.ev
+    for t in range(len(plan['cycles'])):
+        if t == plan['stall_at']:
+            mon.stall(plan['stall'])
+        mon.begin(t)
+        mon.sim.propagateAll()
+        mon.mid(t)
+        mon.step(t)
+        mon.sim.clk(1)
+        mon.end(t)
 
 
 def gen_lockstep(rnd, ncyc):
@@ -213,6 +264,24 @@ class A2R:
     def observe(self):
         self.ev['listener_observations'] += 1
         self.look('listener')
+
+    in_stall = False
+
+    def stall(self, n):
+        """n cycles with start, reset, done and the peer's VALID low: no beat, no clear -- active, loaded, q and READY must not move."""
+        s, st, ev = self.s, self.st, self.ev
+        s['start'].put(0); s['reset'].put(0); s['done'].put(0); st.tvalid.put(0)
+        ev['stall_began_active'] += self.m_active
+        ev['stall_began_loaded'] += self.m_loaded
+        self.in_stall = True
+        for c in _stall_chunks(n):
+            self.sim.clk(c)
+            ev['cycles'] += c
+            ev['stall_cycles'] += c
+            ev['stall_looks'] += 1
+            self.look('during an uninterrupted stall of %d cycles, %d cycles in' % (n, ev['stall_cycles']))
+        self.in_stall = False
+        ev['stalls_completed'] += 1
 
     def step(self, t):
         ev = self.ev
@@ -333,6 +402,44 @@ class R2A:
     def observe(self):
         self.ev['listener_observations'] += 1
         self.comb('listener')
+
+    in_stall = False
+
+    def stall(self, n):
+        """n cycles with start, reset, done, load_outs and the peer's READY low: no beat can be accepted, nothing is reset, so VALID
+        (and the word offered with it), sent and active must not move."""
+        s, st, ev = self.s, self.st, self.ev
+        s['start'].put(0); s['reset'].put(0); s['done'].put(0); s['load'].put(0); st.tready.put(0)
+        self.sim.propagateAll()
+        tv0, sent0 = st.tvalid.get(), s['sent'].get()
+        ev['stall_began_with_valid_pending'] += bool(tv0 and self.m_active)
+        self.in_stall = True
+        done_ = 0
+        for c in _stall_chunks(n):
+            self.sim.clk(c)
+            done_ += c
+            ev['cycles'] += c
+            ev['stall_cycles'] += c
+            ev['stall_looks'] += 1
+            ev['back_pressure_cycles'] += c * tv0
+            tv, sent, active = st.tvalid.get(), s['sent'].get(), s['active'].get()
+            ctx = 'uninterrupted_stall'
+            if tv0 and not tv:
+                raise Bad('valid_dropped', dict(ctx=ctx), self.t, 1, 0, 'tvalid fell without acceptance or reset: between %d and %d cycles into an uninterrupted '
+                          'stall of %d cycles (READY, load_outs, start, reset, done all low)' % (done_ - c, done_, n))
+            if tv and not tv0:
+                raise Bad('tvalid_without_load', dict(ctx=ctx), self.t, 0, 1, 'tvalid rose %d..%d cycles into a stall without any load_outs' % (done_ - c, done_))
+            if sent and not sent0:
+                raise Bad('sent_without_accepted_beat', dict(ctx=ctx, tvalid=tv0), self.t, 0, 1,
+                          'sent rose although READY was low throughout: %d..%d cycles into an uninterrupted stall of %d cycles' % (done_ - c, done_, n))
+            if sent0 and not sent:
+                raise Bad('sent_fell', dict(ctx=ctx), self.t, 1, 0, 'sent fell %d..%d cycles into a stall without reset, done or restart' % (done_ - c, done_))
+            if active != self.m_active:
+                raise Bad('active_shadow', dict(expected=self.m_active, observed=active, ctx=ctx), self.t, self.m_active, active,
+                          'active=%d, shadow says %d, %d..%d cycles into a stall' % (active, self.m_active, done_ - c, done_))
+            self.comb('during an uninterrupted stall, %d cycles in' % done_)
+        self.in_stall = False
+        ev['stalls_completed'] += 1
 
     def step(self, t):
         ev, m_active = self.ev, self.m_active
@@ -459,11 +566,13 @@ class R2AHil(R2A):
 class _Passive:
     """Simulator listener that only looks: the per-cycle clauses applied to what a listener sees at the end of every cycle."""
 
-    def __init__(self, mon):
-        self.mon = mon
+    def __init__(self, mon, every=1):
+        self.mon, self.every, self.k = mon, every, 0
 
     def simulatorUpdated(self):
-        self.mon.observe()
+        self.k += 1
+        if self.every == 1 or not self.mon.in_stall or self.k % self.every == 0:
+            self.mon.observe()
 
 
 class _Driving:
@@ -567,7 +676,9 @@ def run_plan(plan, evs):
     ev = Ev()
     evs.append(ev)
     mon = _monitor(plan, ev)
-    if plan.get('drive') == 'listener':
+    if plan.get('stall'):
+        drive_stall(mon)
+    elif plan.get('drive') == 'listener':
         drive_listener(mon)
     else:
         drive_bench(mon)
@@ -605,11 +716,15 @@ def run_check(run, tier, seed, shard):
         jobs.append((k, 'lockstep', 0))
         if k % 2 == 0:
             jobs.append((k, 'hil', 0))
+    stall_jobs = [(k, 'stall_' + dut, v) for k in STALL_K[tier] for dut in ('reg2axi', 'axi2reg') for v in range(STALL_VARIANTS[tier])]
+    stall_jobs.sort(key=lambda j: -j[0])
+    jobs = jobs[:7] + stall_jobs + jobs[7:]         # the long ones first (sharding spreads them; the watchdog never cuts them)
     if shard is not None:
         jobs = [j for i, j in enumerate(jobs) if i % shard[1] == shard[0]]
     deadline = time.time() + (400 if tier == 'quick' else 2400)
     tot = {'axi2reg': Ev(), 'reg2axi': Ev()}
     per_w = {}
+    stalls = {}
     done_jobs = 0
     for (k, dut, slot) in jobs:
         if time.time() > deadline:
@@ -617,7 +732,10 @@ def run_check(run, tier, seed, shard):
             break
         rnd = rng(seed, 'C16', k, dut, slot)
         ncyc = 200 if tier == 'quick' else rnd.choice([400, 1000])
-        if dut == 'lockstep':
+        if dut.startswith('stall_'):
+            plan = gen_stall(rnd, dut[6:], WIDTHS[(k * 5 + slot) % len(WIDTHS)], k, slot)
+            subs = [plan]
+        elif dut == 'lockstep':
             plan = gen_lockstep(rnd, ncyc)
             subs = plan['lockstep']
         elif dut == 'hil':
@@ -655,6 +773,12 @@ def run_check(run, tier, seed, shard):
             run.count('schedules_drive_' + sub['drive'])
             if sub.get('built_by'):
                 run.count('schedules_kernel_built_by_createHILVitis')
+            if sub.get('stall'):
+                run.count('long_stall_schedules_' + d_)
+                good = ev['stalls_completed'] and ev['stall_cycles'] >= sub['stall'] and (
+                    ev['stall_began_with_valid_pending'] if d_ == 'reg2axi' else ev['stall_began_active'])
+                key = '%s: 2**%d+16 cycles' % (d_, sub['stall_k'])
+                stalls[key] = stalls.get(key, 0) + int(bool(good))
             if sub.get('hist'):
                 run.count('schedules_adapter_added_to_running_system')
                 run.count('schedules_adapter_added_at_depth_%d' % sub['hist']['depth'])
@@ -673,10 +797,13 @@ def run_check(run, tier, seed, shard):
     run.extra['axi2reg_events'] = dict(tot['axi2reg'])
     run.extra['reg2axi_events'] = dict(tot['reg2axi'])
     run.extra['schedules_per_configuration'] = per_w
+    run.extra['long_stalls_completed_in_the_deciding_state_by_adapter_and_length'] = stalls
     run.extra['peer_accepts_while_inactive'] = int(tot['reg2axi']['peer_accepts_while_inactive'])
     for need in ('schedules_adapter_added_to_running_system', 'schedules_drive_listener', 'compositions_lockstep', 'schedules_kernel_built_by_createHILVitis'):
         if shard is None and not run.violations and not run.counters.get(need):
             run.inconclusive.append('no run of the class %s' % need)
+    if shard is None:
+        _stall_coverage(run, tier)
     if shard is None and not run.violations:
         need = {'axi2reg': ('beats', 'beat_and_clear_same_cycle', 'reset_while_active', 'done_while_active', 'restart', 'back_to_back_beats'),
                 'reg2axi': ('beats_accepted', 'valid_hold_checked', 'load_while_pending', 'sent_rises', 'sent_falls', 'reset_while_tvalid',
@@ -687,7 +814,15 @@ def run_check(run, tier, seed, shard):
                     run.inconclusive.append('%s: deciding event %s never observed' % (dut, a))
 
 
+def _stall_coverage(run, tier):
+    got = run.extra.get('long_stalls_completed_in_the_deciding_state_by_adapter_and_length', {})
+    missing = ['%s: 2**%d+16 cycles' % (d, k) for k in STALL_K[tier] for d in ('reg2axi', 'axi2reg') if not got.get('%s: 2**%d+16 cycles' % (d, k))]
+    if missing and not run.violations:
+        run.inconclusive.append('long-stall class: no completed stall (Reg2Axi: VALID pending and active; Axi2Reg: active) for %s' % missing[:6])
+
+
 def post_merge(run, tier, seed):
+    _stall_coverage(run, tier)
     for need in ('schedules_adapter_added_to_running_system', 'schedules_drive_listener', 'compositions_lockstep', 'schedules_kernel_built_by_createHILVitis'):
         if not run.violations and not run.counters.get(need):
             run.inconclusive.append('no run of the class %s' % need)
